@@ -589,7 +589,9 @@ class ZipFileSystem(FileSystem[ZipInfo]):
         self.zip = zipfile if zipfile is not None else ZipFile(path)
 
         self._name_to_info: dict[str, ZipInfo] = {
-            info.filename.casefold(): info
+            # Zips should only use /, but a member stored with \\ must still be found by the
+            # normalised names we look up.
+            info.filename.replace('\\', '/').casefold(): info
             for info in self.zip.infolist()
             # Some zip files include entries for the directories too.
             # They have a trailing slash.
@@ -681,7 +683,7 @@ class VPKFileSystem(FileSystem[VPKFile]):
         # All VPK files use forward slashes.
         folder = folder.replace('\\', '/').casefold().rstrip('/')
         for file in self._name_to_file.values():
-            file_dir = file.dir.casefold()
+            file_dir = file.dir.replace('\\', '/').casefold()
             if not folder or file_dir == folder or file_dir.startswith(folder + '/'):
                 yield File(self, file.filename, file)
 
